@@ -1,10 +1,11 @@
 (* Correspondence classifier for C11 (includes expand in place).  One verdict per case:
-   0 Agree | 1 ModelMismatch | 2 PropertyFail | 9 harness error (cycle / pattern outside the model).
+   0 Agree | 1 ModelMismatch | 2 PropertyFail | 101 known finding C11-K1 |
+   9 harness error (cycle / pattern outside the model).
    A case is a tree of ledger files (abstracted: every file is its sequence of `Inc written` and
    `Ent id` entries), the root path, the uncut ledger (entry ids in order), and what
    Loader::load delivered on the in-memory file system and on a real directory. *)
 From Coq Require Import List NArith Bool.
-From Okv Require Import Model.Glob Model.Load.
+From Okv Require Import Model.Glob Model.Load Model.LoadSpec Proofs.GlobProofs.
 Import ListNotations.
 Open Scope N_scope.
 
@@ -88,11 +89,32 @@ Definition model_obs (c : case) : lobs :=
   let r := load (S (length (c_fs c))) (c_fs c) (c_root c) in
   LObs (map (fun d => (index_of (fst d) (c_fs c) 0, snd d)) (fst r)) (status_code (snd r)).
 
+(* known finding C11-K1 (known_findings.json, code 1): a pattern with a star between a separator
+   and a literal dot (star_dot_free = false, the hypothesis Props/C11.v C11_glob_dotfiles_component
+   needs) matches, in the whole-path matcher of the in-memory file system, a key one of whose
+   components begins with a dot; the real file system does not match it. *)
+Definition has_dot_component (k : path) : bool :=
+  existsb (fun c => match c with d :: _ => d =? DOT | [] => false end) k.
+
+Definition known_class_star_dot (c : case) : bool :=
+  existsb (fun f =>
+    existsb (fun e =>
+      match e with
+      | Ent _ => false
+      | Inc w =>
+          match target_tokens (fst f) w with
+          | None => false
+          | Some ts =>
+              negb (star_dot_free ts) &&
+              existsb (fun k => has_dot_component k && matches_with ts (path_string k)) (map fst (c_fs c))
+          end
+      end) (snd f)) (c_fs c).
+
 Definition classify (c : case) : N :=
   match model_obs c with
   | LObs _ st =>
       if 90 <=? st then 9
-      else if negb (spec_holds c) then 2
+      else if negb (spec_holds c) then (if known_class_star_dot c then 101 else 2)
       else if lobs_eqb (c_fake c) (model_obs c) then 0 else 1
   end.
 
